@@ -122,7 +122,7 @@ func (g *pgen) scratchVar() string { return g.scratch[g.t.Draw(len(g.scratch))] 
 // iterable expression
 func (g *pgen) iterable(d int) Expr {
 	k := g.t.Draw(10)
-	if k >= 8 && !(len(g.gvars) > 0 && g.mode == "C09") {
+	if k >= 8 && !(len(g.gvars) > 0) {
 		k -= 8
 	}
 	if k >= 5 && k <= 7 && len(g.gens) == 0 {
@@ -131,7 +131,12 @@ func (g *pgen) iterable(d int) Expr {
 	switch {
 	case k <= 2:
 		g.use("instrumented-iterator")
-		return &EIt{Site: g.ns(), N: 1 + g.t.Draw(3), Flags: 3 - g.t.Draw(4)} // 0 (= flags 3: return+throw) is the common case
+		it := &EIt{Site: g.ns(), N: 1 + g.t.Draw(3), Flags: 3 - g.t.Draw(4)} // 0 (= flags 3: return+throw) is the common case
+		if g.t.Draw(4) == 0 {
+			g.use("iterable-with-instrumented-Symbol.iterator")
+			it.Wrap = true
+		}
+		return it
 	case k <= 4:
 		g.use("array-iterable")
 		var es []Expr
@@ -174,7 +179,7 @@ func (g *pgen) expr(d int) Expr {
 	if g.fn.Kind == fAsync {
 		n = 12
 	}
-	if g.mode == "C09" && len(g.gvars) > 0 {
+	if len(g.gvars) > 0 {
 		n += 3
 	}
 	k := g.t.Draw(n)
@@ -273,7 +278,7 @@ func (g *pgen) expr(d int) Expr {
 		}
 		return &EAwait{E: g.expr(d - 1)}
 	}
-	if g.mode == "C09" && len(g.gvars) > 0 {
+	if len(g.gvars) > 0 {
 		g.use("driver-op")
 		op := dNext
 		switch g.t.Draw(6) {
@@ -336,7 +341,7 @@ func (g *pgen) stmt(d int) Stmt {
 				})
 				s.Finally = append(s.Finally, &SBlock{Label: l, Body: inner})
 			}
-			if g.mode == "C09" && len(g.gvars) > 0 && g.t.Draw(3) == 0 {
+			if len(g.gvars) > 0 && g.t.Draw(3) == 0 {
 				// re-entrancy: a finally block (possibly running because of return()/throw()/iterator close) drives a generator
 				g.use("driver-op-in-finally")
 				s.Finally = append(s.Finally, &SAssign{Var: g.scratchVar(), E: &EDrive{Site: g.ns(), Gen: g.gvars[g.t.Draw(len(g.gvars))], Op: g.t.Draw(3), Arg: g.leafExpr()}})
@@ -431,11 +436,27 @@ func (g *pgen) function(name string, kind int, depth, budget int) *Func {
 		g.scratch = append(g.scratch, g.newVar("v"))
 	}
 	f.Body = g.block(depth)
-	if kind == fGen && g.mode == "C09" && len(g.gvars) > 0 {
+	if g.t.Draw(3) == 0 {
+		// every local of this function is captured by a closure, so the locals live in a scope object instead of stack
+		// slots and every nested block scope adds a level that exits, resumptions and finally blocks must unwind exactly
+		g.use("captured-locals")
+		f.Capture = true
+	}
+	if kind == fGen && len(g.gvars) > 0 {
 		// two recurring shapes of cooperating generators, on top of the random body: a RELAY that is suspended inside a
 		// for-of over another generator (not inside any try statement), and a FINALIZER whose finally block drives a
 		// generator (so that it runs re-entrantly while some other generator's return()/throw() closes it)
-		switch g.t.Draw(6) {
+		switch g.t.Draw(7) {
+		case 6:
+			// a delegation that fails in GetIterator (or in the delegate's first step), caught by the generator itself,
+			// which then drives a generator (possibly itself: it is still running) before it yields again
+			g.use("failed-delegation-then-driver-op")
+			e := g.newVar("e")
+			f.Body = append(f.Body, &STry{
+				Body:     []Stmt{&SAssign{Var: g.scratch[0], E: &EYieldStar{Iter: &EIt{Site: g.ns(), N: 1 + g.t.Draw(2), Flags: 3, Wrap: true}}}},
+				HasCatch: true, CatchVar: e, CatchSite: g.ns(),
+				Catch: []Stmt{&SAssign{Var: g.scratch[1], E: &EDrive{Site: g.ns(), Gen: g.gvars[g.t.Draw(len(g.gvars))], Op: g.t.Draw(3), Arg: &ENum{N: 0}}}},
+			}, &SAssign{Var: g.scratch[2], E: &EDrive{Site: g.ns(), Gen: g.gvars[g.t.Draw(len(g.gvars))], Op: g.t.Draw(3), Arg: &ENum{N: 1}}})
 		case 4:
 			g.use("relay-generator")
 			x := g.newVar("x")
@@ -481,8 +502,10 @@ func genProgram(t *core.Track, mode string) (*Program, map[string]int) {
 		g.plain = append(g.plain, f)
 		pr.Funcs = append(pr.Funcs, f)
 	}
-	if mode == "C09" {
+	if mode == "C09" || (ng > 0 && t.Draw(4) == 0) {
 		// generator objects live in globals so that any body (including the generator's own) can drive them
+		// (always for C09; in a quarter of the C08 programs that have generators, so that completion values that travel
+		// through return()/throw() and yield* delegates are observed there too)
 		nv := 1 + t.Draw(3)
 		for i := 0; i < nv; i++ {
 			g.gvars = append(g.gvars, fmt.Sprintf("G%d", i))
